@@ -110,6 +110,9 @@ func (a *Real32) String() string {
 /* -------------------------------------------------------------------------- */
 // Allocate memory for derivatives of n variables.
 func (a *Real32) Alloc(n, order int) {
+  if order < 0 || order > 2 {
+    panic(fmt.Errorf("derivatives of order `%d' are not supported", order))
+  }
   if a.N != n || a.Order != order {
     // the gradient stays valid if only the order changes (the receiver of
     // an operation may be one of its operands)
